@@ -104,7 +104,7 @@ func protoBases() []NamedBase {
 				mfld("id", tInt(), "fields_mask", 0), fld("flags", tInt())),
 			ctor("myBoxedTupleSlice", "MyBoxedTupleSlice", 2, nil, fld("n", tNat()),
 				fld("data", tTup(tBoxedInt(), aR("n"), false))),
-			ctor("patterns", "Patterns", 3, nil, fld("a", tRef("Pattern", true, aN(1))),
+			ctor("patterns", "Patterns", 3, nil, fld("a", tRef("Pattern", true, aN(3))),
 				fld("b", tRef("Pattern", false, aN(0))), fld("c", tTup(tInt(), aN(2), true))),
 			fn("getPattern", 4, tRef("Pattern", false, aN(1)), fld("id", tInt())),
 		}},
